@@ -242,6 +242,7 @@ Proof.
   - destruct (mn >? mx) eqn:E1; [discriminate|].
     destruct ((v <? mn) || (v >? mx)); [discriminate|].
     destruct (_ && (dmn >? dmx)); [discriminate|].
+    unfold guard_width. destruct (fix_C20_1 && _); [discriminate|].
     destruct (int63n _ t) as [r t1| | |]; cbn; try discriminate.
     intros H; inversion H; subst. destruct d0; cbn in *; try tauto.
     destruct Hl as (-> & -> & -> & ->). split; [tauto|]. apply clampZ_range. zb. lia.
@@ -260,6 +261,7 @@ Proof.
   - destruct (mn >? mx) eqn:E1; [discriminate|].
     destruct ((v <? mn) || (v >? mx)); [discriminate|].
     destruct (_ && (dmn >? dmx)); [discriminate|].
+    unfold guard_width. destruct (fix_C20_1 && _); [discriminate|].
     destruct (int63n _ t) as [r t1| | |]; cbn; try discriminate.
     intros H; inversion H; subst. destruct d0; cbn in *; try tauto.
     destruct Hl as (-> & -> & -> & ->). split; [tauto|]. apply clampZ_range. zb. lia.
@@ -427,7 +429,9 @@ Proof.
   intros Hmax. unfold update_ts.
   destruct (ts <? 0) eqn:E1; [discriminate|].
   destruct ((dmin >? dmax) || (dmin <? 0)) eqn:E2; [discriminate|].
+  unfold guard_width. destruct (fix_C20_1 && _); [discriminate|].
   destruct (int63n (wrap64 (dmax - dmin + 1)) t) as [r t1| | |] eqn:Er; cbn [rbind]; try discriminate.
+  cbv zeta. destruct (fix_C20_2 && _); [discriminate|].
   intros H. assert (Hts : ts' = wrap64 (ts + r + dmin)) by congruence. clear H.
   zb. apply int63n_range in Er.
   assert (Hw : dmax - dmin + 1 <= max_i64 \/ dmax - dmin + 1 = two63)
@@ -1282,15 +1286,18 @@ Proof. congruence. Qed.
 
 (** with int64 fields, [Next] panics only through an [Int63n] width that left int64 *)
 Theorem update_ts_panic_iff ts dmin dmax t :
+  fix_C20_1 = false ->
   update_ts ts dmin dmax t = RPanic <->
   (0 <= ts /\ 0 <= dmin <= dmax /\ wrap64 (dmax - dmin + 1) <= 0).
 Proof.
-  unfold update_ts. destruct (ts <? 0) eqn:E1; zb.
+  intros Hfix. unfold update_ts, guard_width. rewrite Hfix. cbn [andb].
+  destruct (ts <? 0) eqn:E1; zb.
   - split; [discriminate|lia].
   - destruct ((dmin >? dmax) || (dmin <? 0)) eqn:E2.
     + split; [discriminate|]. intros (_ & H & _). apply orb_true_iff in E2. destruct E2; zb; lia.
     + zb. destruct (int63n (wrap64 (dmax - dmin + 1)) t) as [r t1| | |] eqn:Er; cbn [rbind].
-      * split; [discriminate|]. intros (_ & _ & Hw). apply int63n_range in Er. lia.
+      * cbv zeta. destruct (fix_C20_2 && _);
+          (split; [discriminate|]; intros (_ & _ & Hw); apply int63n_range in Er; lia).
       * apply int63n_panic_iff in Er. split; [intros _; lia|reflexivity].
       * split; [discriminate|]. intros (_ & _ & Hw).
         apply (proj2 (int63n_panic_iff _ t)) in Hw. congruence.
@@ -1354,9 +1361,10 @@ Definition kf2_vals : list value :=
     mkValue 1 9223372036854775806 0 0 2 None (KBool true LNone) ].
 
 Theorem ts_nondecreasing_refuted :
+  fix_C20_2 = false ->
   exists vs g ds n, ~ StronglySorted Z.le (map vts (fst (run_cfg vs g ds n))).
 Proof.
-  exists kf2_vals, [0; 0; 0; 0], false, 3%nat.
+  intros _. exists kf2_vals, [0; 0; 0; 0], false, 3%nat.
   remember (map vts (fst (run_cfg kf2_vals [0; 0; 0; 0] false 3))) as l eqn:E. vm_compute in E.
   subst l. intros H. inversion H as [|? ? _ Hf]; subst. inversion Hf as [|? ? Hlt _]; subst. lia.
 Qed.
@@ -1365,8 +1373,9 @@ Qed.
 Definition kf1_vals : list value :=
   [ mkValue 0 6 3 3 5 None (KInt 0 (NRange (-9000000000000000000) 9000000000000000000 0 0)) ].
 
-Theorem no_panic_refuted : exists vs g ds n, snd (run_cfg vs g ds n) = EPanic.
-Proof. exists kf1_vals, [1; 2; 3], false, 2%nat. vm_compute. reflexivity. Qed.
+Theorem no_panic_refuted :
+  fix_C20_1 = false -> exists vs g ds n, snd (run_cfg vs g ds n) = EPanic.
+Proof. intros _. exists kf1_vals, [1; 2; 3], false, 2%nat. vm_compute. reflexivity. Qed.
 
 (** ** soundness of the executable order clause K_P applies to the
     implementation's observations ([FakeQCheck.ts_sorted_from]) *)
